@@ -184,6 +184,23 @@ func Observe(name string, v interface{}) {
 	st.observes = append(st.observes, name+"="+obs(v))
 }
 
+// And, Or, Implies, IteInt, IteByte are branch-free under the engine (no path fork).
+func And(a, b bool) bool     { return a && b }
+func Or(a, b bool) bool      { return a || b }
+func Implies(a, b bool) bool { return !a || b }
+func IteInt(c bool, a, b int) int {
+	if c {
+		return a
+	}
+	return b
+}
+func IteByte(c bool, a, b byte) byte {
+	if c {
+		return a
+	}
+	return b
+}
+
 // Symbolic reports whether the harness runs under the symbolic engine with symbolic draws.
 func Symbolic() bool { return false }
 
